@@ -491,19 +491,17 @@ func (c *C07Scn) homedPrior(kind, enc string) (*trie.SlimTrie, bool) {
 	if si == nil {
 		return st, held
 	}
-	for _, qb := range c.Queries {
-		func() {
-			defer func() {
-				if r := recover(); r != nil {
-					if a, ok := r.(abortUnit); ok {
-						panic(a)
-					}
-				}
+	// (bounded: a lookup that never returns on a valid prior state is not this
+	// scenario's business; whatever the reads panic with is not either)
+	withStepCap(2_000_000, func() {
+		for _, qb := range c.Queries {
+			func() {
+				defer func() { recover() }()
+				si.Get(string(qb))
+				si.RangeGet(string(qb))
 			}()
-			si.Get(string(qb))
-			si.RangeGet(string(qb))
-		}()
-	}
+		}
+	})
 	return st, held
 }
 
